@@ -786,7 +786,9 @@ def run(rep, tier):
     rep.floor("bn_init / bn_assign_init destinations classified (caller's object vs own temporary)", n_ck, 60)
     rep.floor("Legendre status uses", n_aud[6], 2)
     rep.floor("Euclid inverses (non-default variants)", c01_audit.no_inverse_exit_rule(rep, u0), 2)
-    rep.floor("top-digit reads of functions that accept zero operands", locals().get("n_top", 0), 2)
+    rep.floor("top-digit reads of functions that accept zero operands", locals().get("n_top", 0), 3)
+    c01_audit.halving_odd_modulus_rule(rep, u0)
+    rep.floor("subtract-until-smaller loops", c01_audit.zero_modulus_loop_rule(rep, u0), 1)
     c03.reduce_rule(rep, u0, "bn_mod_small")
     rep.floor("high-remainder stores on success paths (first configuration is a portable-divide one)", n_aud[4], 3)
     return driver.finish(
